@@ -5,6 +5,7 @@ the literals of `cs`, and the line predicate of that pattern is "the line contai
 import GrcovModel.Lemmas.FileFilterRegexRun
 import GrcovModel.Lemmas.RegexLit
 import GrcovModel.Lemmas.RegexUtf8
+import Mathlib.Tactic.SplitIfs
 namespace Grcov.FileFilter
 open Grcov Grcov.Regex
 
@@ -87,4 +88,308 @@ theorem not_inRegion_of_no_start {start stop : Nat → Prop} (h : ∀ k, ¬ star
     ¬ inRegion start stop n := by
   rintro ⟨s, _, hs, _⟩; exact h s hs
 
+/-! ### which command lines clap refuses -/
+
+theorem compileOpt_error {x : Option (List Nat)} {e : ArgErr} (h : compileOpt x = .error e) :
+    ∃ v, x = some v ∧ ∀ t, compile v ≠ .ok t := by
+  cases x with
+  | none => cases h
+  | some v =>
+    refine ⟨v, rfl, fun t ht => ?_⟩
+    simp [compileOpt, ht] at h
+
+theorem compileOpt_bad {v : List Nat} (hb : ∀ t, compile v ≠ .ok t) : ∃ e, compileOpt (some v) = .error e := by
+  simp only [compileOpt]
+  cases hc : compile v with
+  | ok t => exact absurd hc (hb t)
+  | err e => exact ⟨_, rfl⟩
+  | notUtf8 => exact ⟨_, rfl⟩
+
+theorem cliExit_iff (a : MainGlue.FileFilterArgs) :
+    cliExit a = some 2 ↔
+      ∃ v, (a.exclLine = some v ∨ a.exclStart = some v ∨ a.exclStop = some v ∨ a.exclBrLine = some v ∨
+            a.exclBrStart = some v ∨ a.exclBrStop = some v) ∧ ∀ t, compile v ≠ .ok t := by
+  unfold cliExit compileArgs
+  constructor
+  · intro h
+    cases h1 : compileOpt a.exclLine with
+    | error e => obtain ⟨v, hv, hb⟩ := compileOpt_error h1; exact ⟨v, Or.inl hv, hb⟩
+    | ok _ =>
+    cases h2 : compileOpt a.exclStart with
+    | error e => obtain ⟨v, hv, hb⟩ := compileOpt_error h2; exact ⟨v, Or.inr (Or.inl hv), hb⟩
+    | ok _ =>
+    cases h3 : compileOpt a.exclStop with
+    | error e => obtain ⟨v, hv, hb⟩ := compileOpt_error h3; exact ⟨v, Or.inr (Or.inr (Or.inl hv)), hb⟩
+    | ok _ =>
+    cases h4 : compileOpt a.exclBrLine with
+    | error e =>
+      obtain ⟨v, hv, hb⟩ := compileOpt_error h4; exact ⟨v, Or.inr (Or.inr (Or.inr (Or.inl hv))), hb⟩
+    | ok _ =>
+    cases h5 : compileOpt a.exclBrStart with
+    | error e =>
+      obtain ⟨v, hv, hb⟩ := compileOpt_error h5
+      exact ⟨v, Or.inr (Or.inr (Or.inr (Or.inr (Or.inl hv)))), hb⟩
+    | ok _ =>
+    cases h6 : compileOpt a.exclBrStop with
+    | error e =>
+      obtain ⟨v, hv, hb⟩ := compileOpt_error h6
+      exact ⟨v, Or.inr (Or.inr (Or.inr (Or.inr (Or.inr hv)))), hb⟩
+    | ok _ => simp [h1, h2, h3, h4, h5, h6] at h
+  · rintro ⟨v, hv, hb⟩
+    obtain ⟨e, he⟩ := compileOpt_bad hb
+    cases h1 : compileOpt a.exclLine with
+    | error _ => rfl
+    | ok _ =>
+    cases h2 : compileOpt a.exclStart with
+    | error _ => rfl
+    | ok _ =>
+    cases h3 : compileOpt a.exclStop with
+    | error _ => rfl
+    | ok _ =>
+    cases h4 : compileOpt a.exclBrLine with
+    | error _ => rfl
+    | ok _ =>
+    cases h5 : compileOpt a.exclBrStart with
+    | error _ => rfl
+    | ok _ =>
+    cases h6 : compileOpt a.exclBrStop with
+    | error _ => rfl
+    | ok _ =>
+      rcases hv with hv | hv | hv | hv | hv | hv
+      · rw [hv, he] at h1; cases h1
+      · rw [hv, he] at h2; cases h2
+      · rw [hv, he] at h3; cases h3
+      · rw [hv, he] at h4; cases h4
+      · rw [hv, he] at h5; cases h5
+      · rw [hv, he] at h6; cases h6
+
+/-! ### the first line of a text -/
+
+theorem splitLF_noLF : ∀ (body : List Nat), (∀ b ∈ body, b ≠ 10) → splitLF body = [body]
+  | [], _ => rfl
+  | b :: bs, h => by
+    have hb : b ≠ 10 := h b (by simp)
+    simp only [splitLF, hb, if_false, splitLF_noLF bs (fun x hx => h x (by simp [hx])), consHead]
+
+theorem splitLF_append_lf : ∀ (body : List Nat), (∀ b ∈ body, b ≠ 10) → ∀ r,
+    splitLF (body ++ 10 :: r) = body :: splitLF r
+  | [], _, r => by simp [splitLF]
+  | b :: bs, h, r => by
+    have hb : b ≠ 10 := h b (by simp)
+    simp only [List.cons_append, splitLF, hb, if_false,
+      splitLF_append_lf bs (fun x hx => h x (by simp [hx])) r, consHead]
+
+theorem stripCR_snoc_cr (l : List Nat) : stripCR (l ++ [13]) = l := by
+  simp [stripCR]
+
+theorem srcLine_one (src : List Nat) : srcLine src 1 = ((splitSrc src)[0]?).map stripCR := by
+  simp [srcLine]
+
+theorem srcLine_first_lf (body : List Nat) (hb : ∀ b ∈ body, b ≠ 10) (rest : List Nat) :
+    srcLine (body ++ 10 :: rest) 1 = some (stripCR body) := by
+  rw [srcLine_one]
+  unfold splitSrc
+  by_cases hr : rest = []
+  · subst hr
+    rw [stripFinalLF_snoc_lf, splitLF_noLF body hb]
+    rfl
+  · have : stripFinalLF (body ++ 10 :: rest) = body ++ 10 :: (stripFinalLF rest) := by
+      unfold stripFinalLF
+      have hl : (body ++ 10 :: rest).getLast? = rest.getLast? := by
+        rw [List.getLast?_append, List.getLast?_cons]
+        cases hg : rest.getLast? with
+        | none => exact absurd (List.getLast?_eq_none_iff.1 hg) hr
+        | some x => simp
+      rw [hl]
+      by_cases h10 : rest.getLast? = some 10
+      · simp only [h10, if_true]
+        rw [List.dropLast_append_of_ne_nil (by simp), List.dropLast_cons_of_ne_nil hr]
+      · simp only [h10, if_false]
+    rw [this, splitLF_append_lf body hb]
+    rfl
+
+theorem srcLine_first (body : List Nat) (hb : ∀ b ∈ body, b ≠ 10) (rest : List Nat) :
+    srcLine (body ++ 10 :: rest) 1 = some (stripCR body) ∧
+    srcLine (body ++ 13 :: 10 :: rest) 1 = some body ∧
+    srcLine body 1 = some (stripCR body) ∧ srcLine (body ++ [10]) 1 = some (stripCR body) := by
+  refine ⟨srcLine_first_lf body hb rest, ?_, ?_, srcLine_first_lf body hb []⟩
+  · have h13 : ∀ b ∈ body ++ [13], b ≠ 10 := by
+      intro b hbm
+      rcases List.mem_append.1 hbm with h | h
+      · exact hb b h
+      · simp at h; omega
+    have := srcLine_first_lf (body ++ [13]) h13 rest
+    rw [stripCR_snoc_cr] at this
+    simpa using this
+  · rw [srcLine_one]
+    unfold splitSrc
+    have hl : body.getLast? ≠ some 10 := by
+      intro h
+      exact hb 10 (List.mem_of_getLast? h) rfl
+    rw [stripFinalLF_of_not_lf body hl, splitLF_noLF body hb]
+    rfl
+
+/-! ### every line of a UTF-8 file is UTF-8 -/
+
+theorem splitLF_decodes : ∀ (n : Nat) (s : List Nat), s.length ≤ n → (decode s).isSome = true →
+    ∀ p ∈ splitLF s, (decode p).isSome = true
+  | n, s, hn, hs => by
+    by_cases hno : ∀ b ∈ s, b ≠ 10
+    · rw [splitLF_noLF s hno]
+      intro p hp
+      simp only [List.mem_singleton] at hp
+      subst hp; exact hs
+    · -- the first line feed
+      have hex : ∃ body rest, s = body ++ 10 :: rest ∧ ∀ b ∈ body, b ≠ 10 := by
+        clear hs hn
+        induction s with
+        | nil => exact absurd (fun b hb => by cases hb) hno
+        | cons c t ih =>
+          by_cases hc : c = 10
+          · exact ⟨[], t, by simp [hc], fun b hb => by cases hb⟩
+          · have : ¬ ∀ b ∈ t, b ≠ 10 := by
+              intro ht; apply hno; intro b hb
+              rcases List.mem_cons.1 hb with rfl | hb
+              · exact hc
+              · exact ht b hb
+            obtain ⟨body, rest, rfl, hb⟩ := ih this
+            refine ⟨c :: body, rest, rfl, fun b hbm => ?_⟩
+            rcases List.mem_cons.1 hbm with rfl | hbm
+            · exact hc
+            · exact hb b hbm
+      obtain ⟨body, rest, rfl, hb⟩ := hex
+      obtain ⟨h1, h2⟩ := decode_isSome_split body 10 (by decide) rest hs
+      rw [splitLF_append_lf body hb]
+      intro p hp
+      rcases List.mem_cons.1 hp with rfl | hp
+      · exact h1
+      · match n, hn with
+        | 0, hn => simp at hn
+        | n + 1, hn =>
+          exact splitLF_decodes n rest (by simp at hn; omega) h2 p hp
+
+/-- `read_to_string` succeeded: every line `create` looks at is UTF-8 too -/
+theorem srcLine_decodes (src : List Nat) (hs : (decode src).isSome = true) (n : Nat) (l : List Nat)
+    (hl : srcLine src n = some l) : (decode l).isSome = true := by
+  unfold srcLine at hl
+  split_ifs at hl
+  obtain ⟨p, hp, rfl⟩ := Option.map_eq_some_iff.1 hl
+  have hmem : p ∈ splitSrc src := List.mem_of_getElem? hp
+  unfold splitSrc at hmem
+  have hstrip : (decode (stripFinalLF src)).isSome = true := by
+    unfold stripFinalLF
+    split_ifs with h10
+    · have e := eq_snoc_of_getLast? h10
+      rw [e] at hs
+      exact (decode_isSome_split src.dropLast 10 (by decide) [] hs).1
+    · exact hs
+  have hpd := splitLF_decodes _ _ (Nat.le_refl _) hstrip p hmem
+  unfold stripCR
+  split_ifs with h13
+  · have e := eq_snoc_of_getLast? h13
+    rw [e] at hpd
+    exact (decode_isSome_split p.dropLast 13 (by decide) [] hpd).1
+  · exact hpd
+
+/-! ### ASCII literal markers: the regex model is the substring model -/
+
+theorem hasSub_iff_infix (p : List Nat) : ∀ l : List Nat, hasSub p l = true ↔ p <:+: l
+  | [] => by simp [hasSub, List.isEmpty_iff]
+  | x :: xs => by
+    simp only [hasSub, Bool.or_eq_true, List.isPrefixOf_iff_prefix, hasSub_iff_infix p xs, List.infix_cons_iff]
+
+/-- on a line that is UTF-8, the pattern of an ASCII literal text answers what the byte-wise substring
+search answers -/
+theorem lineMatch_literal_ascii (t : Chars) (ht : ∀ b ∈ t, b < 128) (l : List Nat)
+    (hl : (decode l).isSome = true) :
+    lineMatch (some (anchoredAst false false t)) l = hasSub t l := by
+  obtain ⟨cs, hcs⟩ := Option.isSome_iff_exists.1 hl
+  have hinv := decode_eq_some_iff l cs hcs
+  have key : isMatch (anchoredAst false false t) cs = true ↔ hasSub t l = true := by
+    rw [isMatch_iff, matches_literal, hasSub_iff_infix, ← hinv, infix_enc_ascii t ht cs]
+  simp only [lineMatch, hcs]
+  cases h1 : isMatch (anchoredAst false false t) cs <;> cases h2 : hasSub t l <;> simp_all
+
+theorem mem_splitSrc_decodes (src : List Nat) (hs : (decode src).isSome = true) (p : List Nat)
+    (hp : p ∈ splitSrc src) : (decode (stripCR p)).isSome = true := by
+  obtain ⟨i, hi⟩ := List.getElem?_of_mem hp
+  exact srcLine_decodes src hs (i + 1) (stripCR p) (by simp [srcLine, hi])
+
+/-- what the literal-marker configuration compiles to -/
+def litCompiled (l s p bl bs bp : Option Chars) : Compiled6 :=
+  ⟨l.map (anchoredAst false false), s.map (anchoredAst false false), p.map (anchoredAst false false),
+   bl.map (anchoredAst false false), bs.map (anchoredAst false false), bp.map (anchoredAst false false)⟩
+
+theorem hit_literal_ascii (t : Option Chars) (ht : ∀ cs, t = some cs → ∀ b ∈ cs, b < 128) (l : List Nat)
+    (hl : (decode l).isSome = true) :
+    ((t.map (anchoredAst false false)).isSome && lineMatch (t.map (anchoredAst false false)) l)
+      = (t.isSome && hasSub (t.getD []) l) := by
+  cases t with
+  | none => rfl
+  | some cs => simp [lineMatch_literal_ascii cs (ht cs rfl) l hl]
+
+/-- **ASCII literal markers: the filter list of the compiled patterns is the filter list of the
+byte-wise substring search** (`Rx.ofLiterals`), on every file that is UTF-8 -/
+theorem createSrc_literals_ascii (l s p bl bs bp : Option Chars)
+    (hl : ∀ cs, l = some cs → ∀ b ∈ cs, b < 128) (hs : ∀ cs, s = some cs → ∀ b ∈ cs, b < 128)
+    (hp : ∀ cs, p = some cs → ∀ b ∈ cs, b < 128) (hbl : ∀ cs, bl = some cs → ∀ b ∈ cs, b < 128)
+    (hbs : ∀ cs, bs = some cs → ∀ b ∈ cs, b < 128) (hbp : ∀ cs, bp = some cs → ∀ b ∈ cs, b < 128)
+    (file : List Nat) (hutf : (decode file).isSome = true) :
+    createSrc (litCompiled l s p bl bs bp).toOpts (litCompiled l s p bl bs bp).rx (some file)
+      = createSrc ⟨l.isSome, s.isSome, p.isSome, bl.isSome, bs.isSome, bp.isSome⟩
+          (Rx.ofLiterals (l.getD []) (s.getD []) (p.getD []) (bl.getD []) (bs.getD []) (bp.getD [])) (some file) := by
+  have ho : (litCompiled l s p bl bs bp).toOpts = ⟨l.isSome, s.isSome, p.isSome, bl.isSome, bs.isSome, bp.isSome⟩ := by
+    simp [litCompiled, Compiled6.toOpts]
+  rw [ho]
+  apply createSrc_congr_on
+  intro q hq
+  have hd := mem_splitSrc_decodes file hutf q hq
+  have e1 := hit_literal_ascii l hl _ hd
+  have e2 := hit_literal_ascii s hs _ hd
+  have e3 := hit_literal_ascii p hp _ hd
+  have e4 := hit_literal_ascii bl hbl _ hd
+  have e5 := hit_literal_ascii bs hbs _ hd
+  have e6 := hit_literal_ascii bp hbp _ hd
+  simp only [Option.isSome_map] at e1 e2 e3 e4 e5 e6
+  simp only [maskBits, Rx.bits, Compiled6.rx, litCompiled, Rx.ofLiterals, e1, e2, e3, e4, e5, e6]
+
+theorem litArg_plain (t : Option (List Nat)) (h : PlainAscii t) : litArg t = t := by
+  cases t with
+  | none => rfl
+  | some cs =>
+    obtain ⟨hb, _⟩ := h cs rfl
+    simp only [litArg, Option.map_some, Option.some.injEq]
+    rw [escapeText_eq, escape_plain cs (fun c hc => (hb c hc).2), encAll_ascii cs (fun c hc => (hb c hc).1)]
+
+theorem okText_of_plain (t : Option (List Nat)) (h : PlainAscii t) : OkText t ∧ AsciiText t := by
+  refine ⟨fun cs hcs => ?_, fun cs hcs b hb => ((h cs hcs).1 b hb).1⟩
+  obtain ⟨hb, hl⟩ := h cs hcs
+  exact ⟨fun c hc => isScalar_of_lt (hb c hc).1, hl⟩
+
+/-- in a whole run, plain ASCII markers: `isMatchText` (the regex model) and `hasSub` (the substring
+model of the byte-for-byte run ties) give the same filter list on every UTF-8 text -/
+theorem filterList_plain_ascii (o : Cli.RunAll.Opts) (w : Cli.RunAll.World) (abs src : List Nat)
+    (h : w.text abs = some src) (hutf : (decode src).isSome = true)
+    (h1 : PlainAscii o.excl.exclLine) (h2 : PlainAscii o.excl.exclStart) (h3 : PlainAscii o.excl.exclStop)
+    (h4 : PlainAscii o.excl.exclBrLine) (h5 : PlainAscii o.excl.exclBrStart) (h6 : PlainAscii o.excl.exclBrStop) :
+    Cli.RunAll.filterList { o with isMatch := isMatchText } w abs
+      = Cli.RunAll.filterList { o with isMatch := hasSub } w abs := by
+  have he : o.excl = litArgs o.excl.exclLine o.excl.exclStart o.excl.exclStop o.excl.exclBrLine
+      o.excl.exclBrStart o.excl.exclBrStop := by
+    simp only [litArgs, litArg_plain _ h1, litArg_plain _ h2, litArg_plain _ h3, litArg_plain _ h4,
+      litArg_plain _ h5, litArg_plain _ h6]
+  have hc := compileArgs_litArgs o.excl.exclLine o.excl.exclStart o.excl.exclStop o.excl.exclBrLine
+    o.excl.exclBrStart o.excl.exclBrStop (okText_of_plain _ h1).1 (okText_of_plain _ h2).1
+    (okText_of_plain _ h3).1 (okText_of_plain _ h4).1 (okText_of_plain _ h5).1 (okText_of_plain _ h6).1
+  rw [← he] at hc
+  rw [filterList_compiled { o with isMatch := isMatchText } w abs _ rfl hc, h]
+  have := createSrc_literals_ascii o.excl.exclLine o.excl.exclStart o.excl.exclStop o.excl.exclBrLine
+    o.excl.exclBrStart o.excl.exclBrStop (okText_of_plain _ h1).2 (okText_of_plain _ h2).2
+    (okText_of_plain _ h3).2 (okText_of_plain _ h4).2 (okText_of_plain _ h5).2 (okText_of_plain _ h6).2 src hutf
+  simp only [litCompiled] at this
+  rw [this]
+  simp only [Cli.RunAll.filterList, h]
+  rfl
+
 end Grcov.FileFilter
+
